@@ -93,8 +93,42 @@ def rule_never_early(chk, prefix="C09"):
     comps = completion_nodes(cfg)
     chk.need(comps, "Task._insert_action no longer marks actions complete")
     nparam = f.pos_params[1]
+    import copy as _copy
+
+    def helper_slice(fn, e, depth=0):
+        """conditions a predicate helper called inside test expression e depends on, with its parameters renamed to the arguments"""
+        out = []
+        if depth > 2:
+            return out
+        for c in [x for x in ast.walk(e) if isinstance(x, ast.Call)]:
+            for g in ctx.targets(fn, c):
+                if g.module is not f.module or g is f or g.is_lambda:
+                    continue
+                gp = g.pos_params[1:] if (g.cls is not None and isinstance(c.func, ast.Attribute)) else g.pos_params
+                ren = {p_: a_.id for p_, a_ in zip(gp, c.args) if isinstance(a_, ast.Name)}
+
+                class R(ast.NodeTransformer):
+                    def visit_Name(self, node):
+                        if node.id in ren:
+                            node.id = ren[node.id]
+                        return node
+                gcfg = ctx.cfg(g)
+                for n in gcfg.live:
+                    if n.kind == "test":
+                        ee = R().visit(_copy.deepcopy(n.exprs[0]))
+                        out.append((ee, "helper", n))
+                        out += helper_slice(g, n.exprs[0], depth + 1)
+                    elif n.kind == "for_next":
+                        out.append((R().visit(_copy.deepcopy(n.ast.iter)), "loop:body", n))
+                    elif n.kind == "return" and n.ast.value is not None:
+                        ee = R().visit(_copy.deepcopy(n.ast.value))
+                        out.append((ee, "assign", n))
+                        out += helper_slice(g, n.ast.value, depth + 1)
+        return out
     for cn in comps:
         sl = guard_slice(f, cfg, cn)
+        for e_, lab_, t_ in list(sl):
+            sl += helper_slice(f, e_)
         texts = [(unparse(e), lab) for e, lab, t in sl]
         alltxt = " ## ".join(t for t, _ in texts)
         problems = []
